@@ -87,6 +87,9 @@ def main():
         from lib_scorer.grammar_io import load_grammar
         from lib_guesser.pcfg_grammar import PcfgGrammar
         from lib_guesser.priority_queue import PcfgQueue
+        from lib_trainer.detection_rules.keyboard_walk import detect_keyboard_walk as kw_detect
+        from lib_trainer.detection_rules.email_detection import email_detection as email_detect
+        from lib_trainer.detection_rules.website_detection import website_detection as web_detect
         for li, words in enumerate(LISTS):
             rule = 'S13_%d' % li
             with open(os.path.join(d, 'list.txt'), 'w', encoding='utf-8') as fh:
@@ -134,6 +137,8 @@ def main():
             cands |= set(sample)
             for w in list(words) + sample[:60]:
                 cands |= perturb(w, rng)
+            cands |= {'mail.ru', 'Love.UK', 'john@mail.de', 'a.b.de', 'x@y.io', 'site.co.uk', 'tom.com', 'no.dot', 'abc.zz', 'a@b', 'me@home.org!',
+                      'www.a.ru/x', 'https://t.co', 'ftp.site.net:80', 'a.com', '.com', 'x.museum'}
             cands |= {'', 'zzzzqqq', '!!!', '0000000', 'bob@mail.com', 'alice@gmail.com1', 'www.site.com', 'http://x.org/a', 'site.com', 'Kelvin', 'ϴabc1',
                       'İstanbul', 'ǅungla', 'ßtraße', 'password#1', 'mr.big1', 'PASSWORD1', 'pAssword1'}
             cands.discard('')
@@ -151,6 +156,14 @@ def main():
                     fail('other', what='scoring the same string twice gives different results', string=c, first=[cat, p, om], second=list(again[1:]))
                 if cat in ('e', 'w') and p != 0:
                     fail('other', what='an e-mail / website string has a non-zero probability', string=c, category=cat, probability=p)
+                # what the trainer's own detectors find in the string decides the classification (run independently of the scorer)
+                sl, _w, _k = kw_detect(c)
+                want = 'e' if email_detect(sl)[0] else ('w' if web_detect(sl)[0] else None)
+                if want is not None and (cat != want or p != 0):
+                    fail('other', what='a string in which the %s detector finds something is not classified as such with probability 0'
+                         % ('e-mail' if want == 'e' else 'website'), string=c, category=cat, probability=p, expected_category=want)
+                if want is None and cat in ('e', 'w'):
+                    fail('other', what='classified as e-mail / website although the detectors find none', string=c, category=cat)
                 if p and p > 0:
                     positive += 1
                     probs = emitted.get(c)
